@@ -128,6 +128,52 @@ func c11IOCheck(l *explore.Local, _ struct{}, c c11IO) *explore.Fail {
 	return nil
 }
 
+// ---- (g) LCD switched off and on again, several rounds, with every layer showing ---------------
+
+// c11LCD: the busy machine shows background, window and objects; Rounds times the LCD is switched off when line Line
+// has been reached (inside the picture as well as in v-blank: switching off in mid-frame is what games must not do on
+// hardware, but the emulator must survive it), left off for Off cycles and switched on again; then two more frames.
+// Whatever the PPU keeps across lines and frames (window line, fetch positions, object lists) must stay in range.
+type c11LCD struct {
+	LCDC   uint8 `json:"lcdc"`
+	WX     uint8 `json:"wx"`
+	WY     uint8 `json:"wy"`
+	Line   int   `json:"line"`
+	Off    int   `json:"off"`
+	Rounds int   `json:"rounds"`
+}
+
+func c11LCDCheck(l *explore.Local, _ struct{}, c c11LCD) *explore.Fail {
+	m := c11IOSetup(0x7fe)
+	w := m.Map.Write
+	w(0xff4a, c.WY)
+	w(0xff4b, c.WX)
+	w(0xff42, 0x37)
+	w(0xff43, 0x05)
+	w(0xff40, c.LCDC|0x80)
+	for r := 0; r < c.Rounds; r++ {
+		for i := 0; i < 2*17556 && int(m.Map.Read(0xff44)) != c.Line; i++ {
+			m.Cycle()
+			l.Trans(1)
+		}
+		for i := 0; i < 30+r; i++ {
+			m.Cycle()
+		}
+		w(0xff40, c.LCDC&0x7f)
+		for i := 0; i < c.Off; i++ {
+			m.Cycle()
+		}
+		w(0xff40, c.LCDC|0x80)
+	}
+	for i := 0; i < 2*17556+500; i++ {
+		m.Cycle()
+	}
+	l.Trans(2 * 17556)
+	l.Eval(1)
+	l.Outcome(uint64(m.Map.Read(0xff44))<<8 | uint64(m.Map.Read(0xff41)))
+	return nil
+}
+
 // ---- (a) image space ---------------------------------------------------------------------
 
 type c11Image struct {
@@ -413,7 +459,7 @@ type c11Undef struct {
 func init() {
 	register("C11", "fault_enumeration", func(c *Ctx) {
 		if c.R != nil {
-			c.R.Rule = "complete products, each case run on the real code with panics recovered per case: (a) cartridge-type byte (all 256) x ROM-size code x RAM-size code x image length class -> construct, then windows/control writes/selectors/128 CPU cycles; (b) every supported cartridge x every control-region representative x all 256 values, each followed by every (region, value-class) second write and all window accesses; (c) bus sweep: read all 64 KiB, write 00/FF everywhere, DMA from every page, LCD on/off, RAM on/off; (d) every opcode (512 encodings x 8 operand pairs) and every ordered pair from a representative set, pointers/SP/PC placed in 22 region classes, on each controller type; (f) from a busy machine every I/O register written with 10 values after every delay 0-131 (and again 0, 1, 7 cycles later); (e) the 11 undefined opcodes must exit with status 1 and the message (sub-processes)"
+			c.R.Rule = "complete products, each case run on the real code with panics recovered per case: (a) cartridge-type byte (all 256) x ROM-size code x RAM-size code x image length class -> construct, then windows/control writes/selectors/128 CPU cycles; (b) every supported cartridge x every control-region representative x all 256 values, each followed by every (region, value-class) second write and all window accesses; (c) bus sweep: read all 64 KiB, write 00/FF everywhere, DMA from every page, LCD on/off, RAM on/off; (d) every opcode (512 encodings x 8 operand pairs) and every ordered pair from a representative set, pointers/SP/PC placed in 22 region classes, on each controller type; (f) from a busy machine every I/O register written with 10 values after every delay 0-131 (and again 0, 1, 7 cycles later); (g) the LCD switched off at a given line and on again, 1-9 rounds, with background, window and objects showing, then two frames; (e) the 11 undefined opcodes must exit with status 1 and the message (sub-processes)"
 			c.R.Assumptions = []string{"a panic inside the constructor counts as 'fails during construction'", "programs are stopped by the harness before an undefined opcode executes (the deliberate stop is checked separately)", "crash = Go panic or process exit; memory growth and non-termination are out of scope (there is no allocation or unbounded loop on the emulation path)"}
 		}
 		supported := []cartSpec{}
@@ -529,6 +575,25 @@ func init() {
 					}
 				}
 			}, func() struct{} { return struct{}{} }, c11IOCheck)
+		explore.Product(c.R, "lcd-off-on-rounds", explore.PartOpt{Bound: "1, 2, 5 and 9 rounds of off/on at the given line, then 2 frames", Domain: "LCDC {F3,B3,E7,FF,91,A1} x (WX,WY) {(7,0),(166,0),(0,0),(7,143),(100,30)} x line {0,1,60,113,120,143,144,150} x off for {1,300} cycles"},
+			func(yield func(c11LCD) bool) {
+				for _, lcdc := range []uint8{0xf3, 0xb3, 0xe7, 0xff, 0x91, 0xa1} {
+					for _, wp := range [][2]uint8{{7, 0}, {166, 0}, {0, 0}, {7, 143}, {100, 30}} {
+						for _, line := range []int{0, 1, 60, 113, 120, 143, 144, 150} {
+							for _, off := range []int{1, 300} {
+								for _, rounds := range []int{1, 2, 5, 9} {
+									if !c.Thorough() && rounds == 9 && off == 1 {
+										continue
+									}
+									if !yield(c11LCD{LCDC: lcdc, WX: wp[0], WY: wp[1], Line: line, Off: off, Rounds: rounds}) {
+										return
+									}
+								}
+							}
+						}
+					}
+				}
+			}, func() struct{} { return struct{}{} }, c11LCDCheck)
 		explore.Product(c.R, "undefined-opcodes", explore.PartOpt{Workers: 4, Bound: "each of the 11 undefined opcodes, in a sub-process", Domain: "must exit with status 1 and print the message"},
 			func(yield func(c11Undef) bool) {
 				for op := range undefinedOps {
